@@ -11,63 +11,63 @@ Definition RRSIG (ttl id : N) := mkRR 46 1 ttl id false.
 Definition OPT := mkRR 41 1232 32768 9 false.
 (* upstream answer to an RD+DO request: AA, RD, AD set; A 300 + RRSIG 100; NS 300 + RRSIG 300; OPT *)
 Definition up1 : resp :=
-  RMsg (mkMsg 77 0 true false true true (Some (1, 1)) [A 300 1; RRSIG 100 2] [mkRR 2 1 300 3 false; RRSIG 300 4] [OPT] false).
+  RMsg (mkMsg 77 0 true false true true (Some (1, 1)) 1 [A 300 1; RRSIG 100 2] [mkRR 2 1 300 3 false; RRSIG 300 4] [OPT] false).
 Definition dummy : resp := RErr 0.
 
 (* served_was_received / ttl_aged / no_dnssec_leak: the cascade strips, clears AD, RD, AA and ages *)
 Example ex_cascade :
   c20_run config_default
-    [EQuery (kq true false true) 0 0 0 up1;
-     EQuery (kq false false false) 0 5999 0 dummy;      (* no RD/AD/DO, 5.999 s later *)
-     EQuery (kq true true false) 0 7000 0 dummy;        (* RD+AD: AD kept, still stripped *)
-     EQuery (kq true false true) 0 100000 0 dummy;      (* DO at exactly 100 s: RRSIG TTL 0 *)
-     EQuery (kq true false true) 0 100001 0 dummy;      (* one ms later: stale, forwarded *)
-     EQuery (kq false false false) 0 300000 0 dummy]    (* the stripped entry lives to 300 s *)
+    [EQuery (kq true false true) 0 1 0 0 up1;
+     EQuery (kq false false false) 0 1 5999 0 dummy;      (* no RD/AD/DO, 5.999 s later *)
+     EQuery (kq true true false) 0 1 7000 0 dummy;        (* RD+AD: AD kept, still stripped *)
+     EQuery (kq true false true) 0 1 100000 0 dummy;      (* DO at exactly 100 s: RRSIG TTL 0 *)
+     EQuery (kq true false true) 0 1 100001 0 dummy;      (* one ms later: stale, forwarded *)
+     EQuery (kq false false false) 0 1 300000 0 dummy]    (* the stripped entry lives to 300 s *)
   = Ok [OForwarded;
-        OServed (RMsg (mkMsg 77 0 false false false false (Some (1, 1)) [A 295 1] [mkRR 2 1 295 3 false] [OPT] false));
-        OServed (RMsg (mkMsg 77 0 false false true true (Some (1, 1)) [A 293 1] [mkRR 2 1 293 3 false] [OPT] false));
-        OServed (RMsg (mkMsg 77 0 false false true true (Some (1, 1)) [A 200 1; RRSIG 0 2] [mkRR 2 1 200 3 false; RRSIG 200 4] [OPT] false));
+        OServed (RMsg (mkMsg 77 0 false false false false (Some (1, 1)) 1 [A 295 1] [mkRR 2 1 295 3 false] [OPT] false));
+        OServed (RMsg (mkMsg 77 0 false false true true (Some (1, 1)) 1 [A 293 1] [mkRR 2 1 293 3 false] [OPT] false));
+        OServed (RMsg (mkMsg 77 0 false false true true (Some (1, 1)) 1 [A 200 1; RRSIG 0 2] [mkRR 2 1 200 3 false; RRSIG 200 4] [OPT] false));
         OForwarded;
-        OServed (RMsg (mkMsg 77 0 false false false false (Some (1, 1)) [A 0 1] [mkRR 2 1 0 3 false] [OPT] false))].
+        OServed (RMsg (mkMsg 77 0 false false false false (Some (1, 1)) 1 [A 0 1] [mkRR 2 1 0 3 false] [OPT] false))].
 Proof. vm_compute. reflexivity. Qed.
 
 Example ex_cascade_events_ok :
-  Forall ev_ok [EQuery (kq true false true) 0 0 0 up1; EQuery (kq false false false) 0 5999 0 dummy].
+  Forall ev_ok [EQuery (kq true false true) 0 1 0 0 up1; EQuery (kq false false false) 0 1 5999 0 dummy].
 Proof.
   repeat constructor; intros _ (m & E & Q); try discriminate. injection E as <-. discriminate.
 Qed.
 
 (* never_stale: NXDOMAIN with a day-long SOA is kept for max_nxdomain_validity (3600 s) *)
-Definition nx : resp := RMsg (mkMsg 77 3 false false true false (Some (1, 1)) [] [mkRR 6 1 86400 5 false] [] false).
+Definition nx : resp := RMsg (mkMsg 77 3 false false true false (Some (1, 1)) 1 [] [mkRR 6 1 86400 5 false] [] false).
 Example ex_nxdomain_cap :
   c20_run config_default
-    [EQuery (kq true false false) 0 0 0 nx; EQuery (kq true false false) 0 3600000 0 dummy;
-     EQuery (kq true false false) 0 3600001 0 nx]
+    [EQuery (kq true false false) 0 1 0 0 nx; EQuery (kq true false false) 0 1 3600000 0 dummy;
+     EQuery (kq true false false) 0 1 3600001 0 nx]
   = Ok [OForwarded;
-        OServed (RMsg (mkMsg 77 3 false false true false (Some (1, 1)) [] [mkRR 6 1 82800 5 false] [] false));
+        OServed (RMsg (mkMsg 77 3 false false true false (Some (1, 1)) 1 [] [mkRR 6 1 82800 5 false] [] false));
         OForwarded].
 Proof. vm_compute. reflexivity. Qed.
 
 (* transport failure: 30 s *)
 Example ex_failure_cap :
   c20_run config_default
-    [EQuery (kq true false false) 0 0 0 (RErr 2); EQuery (kq false false false) 0 30000 0 dummy;
-     EQuery (kq true false false) 0 30001 0 (RErr 3)]
+    [EQuery (kq true false false) 0 1 0 0 (RErr 2); EQuery (kq false false false) 0 1 30000 0 dummy;
+     EQuery (kq true false false) 0 1 30001 0 (RErr 3)]
   = Ok [OForwarded; OServed (RErr 2); OForwarded].
 Proof. vm_compute. reflexivity. Qed.
 
 (* truncated answers and zero TTLs are not stored; a DNSSEC qtype is never taken from a DO entry *)
 Example ex_not_stored :
   c20_run config_default
-    [EQuery (kq true false false) 0 0 0 (RMsg (mkMsg 77 0 false true true false (Some (1, 1)) [A 60 1] [] [] false));
-     EQuery (kq true false false) 0 0 0 (RMsg (mkMsg 77 0 false false true false (Some (1, 1)) [A 0 1] [] [] false));
-     EQuery (kq true false false) 0 0 0 dummy;
-     EQuery (key_of_request 1 1 46 true false false true) 0 0 0
-        (RMsg (mkMsg 77 0 false false true false (Some (46, 1)) [RRSIG 60 1] [] [] false));
-     EQuery (key_of_request 1 1 46 true false false false) 0 1 0 dummy;
-     EQuery (key_of_request 1 1 46 true false false true) 0 1 0 dummy]
+    [EQuery (kq true false false) 0 1 0 0 (RMsg (mkMsg 77 0 false true true false (Some (1, 1)) 1 [A 60 1] [] [] false));
+     EQuery (kq true false false) 0 1 0 0 (RMsg (mkMsg 77 0 false false true false (Some (1, 1)) 1 [A 0 1] [] [] false));
+     EQuery (kq true false false) 0 1 0 0 dummy;
+     EQuery (key_of_request 1 1 46 true false false true) 0 1 0 0
+        (RMsg (mkMsg 77 0 false false true false (Some (46, 1)) 1 [RRSIG 60 1] [] [] false));
+     EQuery (key_of_request 1 1 46 true false false false) 0 1 1 0 dummy;
+     EQuery (key_of_request 1 1 46 true false false true) 0 1 1 0 dummy]
   = Ok [OForwarded; OForwarded; OForwarded; OForwarded; OForwarded;
-        OServed (RMsg (mkMsg 77 0 false false true false (Some (46, 1)) [RRSIG 60 1] [] [] false))].
+        OServed (RMsg (mkMsg 77 0 false false true false (Some (46, 1)) 1 [RRSIG 60 1] [] [] false))].
 Proof. vm_compute. reflexivity. Qed.
 
 (* parse errors: a record whose RDATA does not parse is not noticed when the
@@ -77,17 +77,30 @@ Proof. vm_compute. reflexivity. Qed.
 Definition badA : rr := mkRR 1 1 60 8 true.
 Example ex_parse_errors :
   c20_run config_default
-    [EQuery (kq true false false) 0 0 0 (RMsg (mkMsg 5 0 false false true false (Some (1, 1)) [A 60 1; badA] [] [] false));
-     EQuery (kq true false false) 0 1000 0 dummy;
-     EQuery (kq true false false) 0 60001 0 (RMsg (mkMsg 6 0 false false true false (Some (1, 1)) [A 60 1] [] [] true));
-     EQuery (kq true false false) 0 60002 0 (RMsg (mkMsg 7 0 false true true false (Some (1, 1)) [A 60 1] [] [] true))]
+    [EQuery (kq true false false) 0 1 0 0 (RMsg (mkMsg 5 0 false false true false (Some (1, 1)) 1 [A 60 1; badA] [] [] false));
+     EQuery (kq true false false) 0 1 1000 0 dummy;
+     EQuery (kq true false false) 0 1 60001 0 (RMsg (mkMsg 6 0 false false true false (Some (1, 1)) 1 [A 60 1] [] [] true));
+     EQuery (kq true false false) 0 1 60002 0 (RMsg (mkMsg 7 0 false true true false (Some (1, 1)) 1 [A 60 1] [] [] true))]
   = Ok [OForwarded; OServed (RErr parse_error); OFwdErr parse_error; OForwarded].
+Proof. vm_compute. reflexivity. Qed.
+
+(* requests in flight together: both miss, both answers are inserted, the later
+   insert wins; a third request (spelling 3 of the name) is served the second
+   answer with its own spelling in the question *)
+Example ex_in_flight :
+  c20_run config_default
+    [EStart (kq true false false) 0 1 0; EStart (kq true false false) 0 1 0;
+     EFinish (kq true false false) 400 (RMsg (mkMsg 1 0 false false true false (Some (1, 1)) 1 [A 60 1] [] [] false));
+     EFinish (kq true false false) 1000 (RMsg (mkMsg 2 0 false false true false (Some (1, 1)) 1 [A 90 2] [] [] false));
+     EStart (kq true false false) 0 3 2000]
+  = Ok [OPending; OPending; OForwarded; OForwarded;
+        OServed (RMsg (mkMsg 2 0 false false true false (Some (1, 1)) 3 [A 89 2] [] [] false))].
 Proof. vm_compute. reflexivity. Qed.
 
 (* eviction: any entry may vanish; the next request is simply forwarded *)
 Example ex_evict :
   c20_run config_default
-    [EQuery (kq true false false) 0 0 0 nx; EEvict 0; EQuery (kq true false false) 0 1 0 nx]
+    [EQuery (kq true false false) 0 1 0 0 nx; EEvict 0; EQuery (kq true false false) 0 1 1 0 nx]
   = Ok [OForwarded; OEvicted; OForwarded].
 Proof. vm_compute. reflexivity. Qed.
 
